@@ -34,6 +34,8 @@ CasesFor(a) ==
   IN {[op |-> "SupRead", a |-> a]}
      \cup {[op |-> "SupIdx", a |-> a, i |-> x.i, top |-> x.top] : x \in IdxArgs(n)}
      \cup {[op |-> "SupBin", a |-> a, b |-> b, share |-> sh] : b \in SupportsOn(g), sh \in {0, 1}}
+     \* the other operand on a logically different grid (equality is false, union/intersection are refused)
+     \cup (IF n <= 4 THEN {[op |-> "SupBin", a |-> a, b |-> b, share |-> 0] : b \in UNION {SupportsOn(v) : v \in GridVariants(g)}} ELSE {})
      \cup (IF n <= TriMaxN
            THEN {[op |-> "SupTri", a |-> a, b |-> b, c |-> c] : b \in SupportsOn(g), c \in SupportsOn(g)}
            ELSE {})
@@ -64,7 +66,8 @@ AcceptOK == st.ph = 1 /\ st.c.op = "SupNew" /\ st.c.stop = 0 /\ st.c.etop = 0 =>
 BinOK == st.ph = 1 /\ st.c.op = "SupBin" =>
   LET a == st.c.a
       b == st.c.b
-  IN /\ UnionPost(a, b, UnionI(a, b))
+  IN IF a.g # b.g THEN ~EqI(a, b) /\ ~SupEq(a, b) ELSE
+     /\ UnionPost(a, b, UnionI(a, b))
      /\ InterPost(a, b, InterI(a, b))
      /\ UnionI(a, b) = UnionI(b, a) /\ InterI(a, b) = InterI(b, a)           \* commutative
      /\ SupEq(UnionI(a, a), a) /\ SupEq(InterI(a, a), a)                     \* idempotent
